@@ -212,6 +212,16 @@ def run(R):
     # (4c) the file behind a key: replaced whole on every write, named by the injective hex encoding of the key (rules shared with C02)
     from props.C02 import file_rules
     file_rules(R, "C01.file")
+    # (4c') what a file decodes to: only the authenticated plaintext of what was written for this key (the decrypt / encrypt gates
+    # and the nonce derivation of C02, which "bytes that were handed to it ... for that same key" rests on just as much)
+    import props.C02 as _C02
+    R.import_rules("C02", _C02.run, ["C02.decrypt", "C02.encrypt", "C02.nonce"], "C01.codec")
+    # (4c'') the spawned write task and the read path cannot panic on a record's key or value (a task that dies after put_verified
+    # answered Ok leaves an accepted record that is never stored nor listed)
+    import panics as _panics  # noqa: F401
+    R.no_panic_reach("C01.io.nopanic", [NRS + "::put_verified", NRS + "::read_from_disk", NRS + "::prepare_record_bytes", NRS + "::get_record_from_bytes",
+                                        RS + "generate_nonce_for_record", NRS + "::generate_filename"], floor_bodies=6,
+                     stop=("ant_networking::send_local_swarm_cmd",))     # the notice's delivery (and its log rendering) is decided by C01.notify.delivery
     # (4d) completion notices are delivered, not dropped: send_local_swarm_cmd awaits capacity (Sender::send), never try_send
     SLC = "ant_networking::send_local_swarm_cmd"
     slc = R.body("C01.notify.delivery", SLC)
